@@ -237,3 +237,8 @@ Example C10_temp_token_zero_shared :
   /\ s_conns s = [] /\
   s_temp (fst (srv_life raising e1500 cfg0 [] [at_ 0 [bad_hello_at A1; bad_hello_at A2] [5; 6] false])) = [].
 Proof. vm_compute. auto. Qed.
+
+(* the hypotheses of C10_token_invariant_step are satisfiable: the initial state satisfies both *)
+Example C10_token_invariant_initial :
+  Inv (srv0 cfg0 []) (fun _ => Some Fresh) /\ TInv (srv0 cfg0 []).
+Proof. exact (conj (Inv_srv0 cfg0 []) (TInv_srv0 cfg0 [])). Qed.
